@@ -247,7 +247,10 @@ class RandomTree:
         elif hmut == "future":
             now = d["ts"] - w.cfg.max_future - rng.choice([1, 1, 0])
         owners = {pos: t.get("_owner", {}) for pos, t in enumerate(d["txs"])}
-        blk = w.concretise(d, owners=owners)
+        try:
+            blk = w.concretise(d, owners=owners)
+        except sk.Unrealisable:
+            return "rej", ""
         res = self.rec.add(blk, now, validated=True,
                            label={"act": "add", "mut": hmut or mut, "parent": parent, "id": bid})
         if res == "ok":
